@@ -421,6 +421,11 @@ func checkCombinator(p *load.Program, s *oblig.Set, fn *ssa.Function, parserT ty
 		if lookAhead[name] && pi.pos != "p0" {
 			report("X4", key("look-ahead consumes nothing"), "a look-ahead combinator returns with the input at "+pi.pos+" instead of where it started", pi)
 		}
+		// X9 an ordered choice that fails as a whole has tried every alternative
+		// from the same position and gives the input back
+		if name == "OneOf" && pi.end == "return" && pi.retErr != "nil" && pi.pos != "p0" {
+			report("X9", key("a failed choice restores the input"), "every alternative of OneOf failed but the input stays at "+pi.pos+": what the last alternative consumed before it failed is lost to whoever reads on (each attempt, the last one included, is made under its own snapshot)", pi)
+		}
 		// X8 what a failed sub-parser built is not part of a successful result
 		if pi.retErr == "nil" {
 			for _, e := range pi.events {
@@ -447,6 +452,9 @@ func checkCombinator(p *load.Program, s *oblig.Set, fn *ssa.Function, parserT ty
 		if !bad[r.rule+key(r.k)] && nRet > 0 {
 			s.OK(r.rule, key(r.k), pos, fmt.Sprintf("%s (%d returning paths)", r.ok, nRet))
 		}
+	}
+	if name == "OneOf" && !bad["X9"+key("a failed choice restores the input")] && nRet > 0 {
+		s.OK("X9", key("a failed choice restores the input"), pos, "on every path where all alternatives fail the input is back at the start")
 	}
 	if lookAhead[name] && !bad["X4"+key("look-ahead consumes nothing")] && nRet > 0 {
 		s.OK("X4", key("look-ahead consumes nothing"), pos, "returns with the input position it started at on every path")
